@@ -104,34 +104,34 @@ func runRouting(r *rep.Report) {
 			strings.ToUpper(base) + "/", "/other", "/", "/other" + base + "/", base + "/..", base + "/../",
 		}
 		for pi, p := range paths {
-		  for _, method := range []string{"GET", "POST", "CONNECT", "OPTIONS", "DELETE"}[:1+4*((pi+1)%2)] {
-			// (built as GET and relabelled: httptest parses a CONNECT target as an authority)
-			req := httptest.NewRequest("GET", "http://h"+p+"?transport=bogus", nil)
-			req.Method = method
-			rec := httptest.NewRecorder()
-			mux.ServeHTTP(rec, req)
-			byEngine := rec.Header().Get("X-Default-Handler") == "" && strings.Contains(rec.Body.String(), "Transport unknown")
-			byDefault := rec.Header().Get("X-Default-Handler") == "1"
-			want := routedToEngine(v, p)
-			r.Case(fmt.Sprintf("route/%s/%s/%s", v.Name, method, p), true)
-			if p == base+"/sub" {
-				r.Sample(map[string]any{"kind": "routing", "attach": v.Name, "path": p, "served_by_engine": byEngine, "expected_engine": want})
-			}
-			r.Obs("routing_cases", 1)
-			if want {
-				r.Obs("routed_to_engine_expected", 1)
-			}
-			if (want && !byEngine) || (!want && !byDefault) {
-				who := "the application's handler"
-				if byEngine {
-					who = "the engine"
-				} else if !byDefault {
-					who = fmt.Sprintf("neither (status %d)", rec.Code)
+			for _, method := range []string{"GET", "POST", "CONNECT", "OPTIONS", "DELETE"}[:1+4*((pi+1)%2)] {
+				// (built as GET and relabelled: httptest parses a CONNECT target as an authority)
+				req := httptest.NewRequest("GET", "http://h"+p+"?transport=bogus", nil)
+				req.Method = method
+				rec := httptest.NewRecorder()
+				mux.ServeHTTP(rec, req)
+				byEngine := rec.Header().Get("X-Default-Handler") == "" && strings.Contains(rec.Body.String(), "Transport unknown")
+				byDefault := rec.Header().Get("X-Default-Handler") == "1"
+				want := routedToEngine(v, p)
+				r.Case(fmt.Sprintf("route/%s/%s/%s", v.Name, method, p), true)
+				if p == base+"/sub" {
+					r.Sample(map[string]any{"kind": "routing", "attach": v.Name, "path": p, "served_by_engine": byEngine, "expected_engine": want})
 				}
-				key := "c05-routing:" + v.Name
-				r.Violationf(key, map[string]any{"attach": v.Name, "path": p, "method": method}, "attach variant %s (engine path %s, trailing slash %v): %s request path %q (cleaned %q) was served by %s, expected %s", v.Name, v.Base, v.Trailing, method, p, cleanRef(p), who, map[bool]string{true: "the engine", false: "the application's handler"}[want])
+				r.Obs("routing_cases", 1)
+				if want {
+					r.Obs("routed_to_engine_expected", 1)
+				}
+				if (want && !byEngine) || (!want && !byDefault) {
+					who := "the application's handler"
+					if byEngine {
+						who = "the engine"
+					} else if !byDefault {
+						who = fmt.Sprintf("neither (status %d)", rec.Code)
+					}
+					key := "c05-routing:" + v.Name
+					r.Violationf(key, map[string]any{"attach": v.Name, "path": p, "method": method}, "attach variant %s (engine path %s, trailing slash %v): %s request path %q (cleaned %q) was served by %s, expected %s", v.Name, v.Base, v.Trailing, method, p, cleanRef(p), who, map[bool]string{true: "the engine", false: "the application's handler"}[want])
+				}
 			}
-		  }
 		}
 		eng.Close()
 	}
@@ -142,7 +142,7 @@ func runRouting(r *rep.Report) {
 type admCfg struct {
 	Enabled   []string `json:"enabled"`
 	AllowEIO3 bool     `json:"allow_eio3"`
-	Hook      string   `json:"hook"` // none | allow | deny
+	Hook      string   `json:"hook"`       // none | allow | deny
 	MW        string   `json:"middleware"` // ok | fail
 }
 
